@@ -48,8 +48,12 @@ impl<'a> CharCounter<'a>
 		let mut line = 0;
 		let mut column = 0;
 		
+		// `index` is a byte index into the source,
+		// while lines and columns count characters
+		let mut byte_index = 0;
+
 		let mut i = 0;
-		while i < index && i < self.chars.len()
+		while byte_index < index && i < self.chars.len()
 		{
 			if self.chars[i] == '\n'
 			{
@@ -59,6 +63,7 @@ impl<'a> CharCounter<'a>
 			else
 				{ column += 1; }
 			
+			byte_index += self.chars[i].len_utf8();
 			i += 1;
 		}
 		
@@ -73,9 +78,13 @@ impl<'a> CharCounter<'a>
 	{
 		let mut line_count = 0;
 		let mut line_begin = 0;
+
+		// The returned range is in byte indices into the source
+		let mut line_begin_byte = 0;
 		
 		while line_count < line && line_begin < self.chars.len()
 		{
+			line_begin_byte += self.chars[line_begin].len_utf8();
 			line_begin += 1;
 			
 			if self.chars[line_begin - 1] == '\n'
@@ -83,8 +92,10 @@ impl<'a> CharCounter<'a>
 		}
 		
 		let mut line_end = line_begin;
+		let mut line_end_byte = line_begin_byte;
 		while line_end < self.chars.len()
 		{
+			line_end_byte += self.chars[line_end].len_utf8();
 			line_end += 1;
 			
 			if self.chars[line_end - 1] == '\n'
@@ -92,8 +103,8 @@ impl<'a> CharCounter<'a>
 		}
 		
 		(
-			line_begin.try_into().unwrap(),
-			line_end.try_into().unwrap()
+			line_begin_byte,
+			line_end_byte
 		)
 	}
 }
